@@ -589,21 +589,35 @@ pub fn run(ctx: &Ctx) {
 fn alignment_step(ctx: &Ctx) {
     use rand_distr::weighted::WeightedAliasIndex;
     use rand_distr::Distribution;
-    fn go<F: rand_distr::weighted::AliasableWeight + std::fmt::Debug + Copy + PartialEq>(ctx: &Ctx, name: &str, ws: &[F])
+    fn go<F: rand_distr::weighted::AliasableWeight + std::fmt::Debug + Copy + PartialEq>(ctx: &Ctx, name: &str, ws: &[F]) -> usize
     where
         WeightedAliasIndex<F>: std::fmt::Debug,
     {
-        let mut keep: Vec<Vec<u8>> = vec![];
-        let mut seen: std::collections::BTreeSet<usize> = Default::default();
-        let mut first: Option<(String, String, Vec<usize>)> = None;
-        for k in 0..24usize {
-            keep.push(vec![0u8; 8 + 16 * (k % 7)]); // perturb the allocator
+        // up to four copies of the vector whose buffers fall into different classes modulo 64 bytes (buffers of an
+        // alignment already seen are kept alive so that the allocator moves on)
+        let mut copies: Vec<(usize, Vec<F>)> = vec![];
+        let mut graveyard: Vec<Vec<F>> = vec![];
+        let mut pads: Vec<Vec<u8>> = vec![];
+        for k in 0..2048usize {
             let mut v: Vec<F> = Vec::with_capacity(ws.len());
             v.extend_from_slice(ws);
-            seen.insert(v.as_ptr() as usize % 64);
+            let class = v.as_ptr() as usize % 64;
+            if copies.iter().all(|c| c.0 != class) {
+                copies.push((class, v));
+                if copies.len() == 4 {
+                    break;
+                }
+            } else {
+                graveyard.push(v);
+            }
+            pads.push(vec![0u8; 8 + 16 * (k % 3)]);
+        }
+        let classes = copies.len();
+        let mut first: Option<(usize, String, String, Vec<usize>)> = None;
+        for (class, v) in copies {
             let d = match crate::report::catch(|| WeightedAliasIndex::<F>::new(v)) {
                 Ok(Ok(d)) => d,
-                _ => return,
+                _ => return classes,
             };
             let dbg = format!("{:?}", d);
             let wts = format!("{:?}", d.weights());
@@ -611,25 +625,36 @@ fn alignment_step(ctx: &Ctx) {
             let smp: Vec<usize> = (0..4000).map(|_| d.sample(&mut rng)).collect();
             ctx.eval(1);
             match &first {
-                None => first = Some((dbg, wts, smp)),
-                Some((d0, w0, s0)) => {
+                None => first = Some((class, dbg, wts, smp)),
+                Some((c0, d0, w0, s0)) => {
                     if *d0 != dbg || *w0 != wts || *s0 != smp {
                         let ndiff = s0.iter().zip(smp.iter()).filter(|(a, b)| a != b).count();
                         let s = Schedule { cells: vec![], steps: vec![], seed: 0 };
-                        report(ctx, &s, "rebuilt_differs", &format!("WeightedAliasIndex<{name}> built twice from equal weight vectors of length {} (buffers at different addresses) differs: Debug equal {}, weights() equal {}, {} of 4000 samples differ on the same stream", ws.len(), *d0 == dbg, *w0 == wts, ndiff));
-                        return;
+                        report(ctx, &s, "rebuilt_differs", &format!("WeightedAliasIndex<{name}> built twice from equal weight vectors of length {} (first weights {:?}; buffers at addresses = {} and {} mod 64) differs: Debug equal {}, weights() equal {}, {} of 4000 samples differ on the same stream", ws.len(), &ws[..4.min(ws.len())], c0, class, *d0 == dbg, *w0 == wts, ndiff));
+                        return classes;
                     }
                 }
             }
         }
-        ctx.class(&format!("alias_rebuild_alignment_classes_seen:{name}:len{}", ws.len()), seen.len() as u64);
+        classes
     }
-    for n in [33usize, 40, 64, 100, 200] {
-        let w64: Vec<f64> = (0..n).map(|i| ((i % 10) + 1) as f64 * 0.1).collect();
-        let w32: Vec<f32> = w64.iter().map(|&x| x as f32).collect();
-        go::<f64>(ctx, "f64", &w64);
-        go::<f32>(ctx, "f32", &w32);
+    let mut max_classes = 0usize;
+    for n in [33usize, 40, 50, 64, 80, 100, 200, 1000] {
+        for pat in 0..4u32 {
+            let w64: Vec<f64> = (0..n)
+                .map(|i| match pat {
+                    0 => ((i % 5) + 1) as f64 * 0.1,
+                    1 => ((i % 10) + 1) as f64 * 0.1,
+                    2 => ((i % 7) + 1) as f64 * 0.3,
+                    _ => ((i * 37 % 100) + 1) as f64 * 0.01,
+                })
+                .collect();
+            let w32: Vec<f32> = w64.iter().map(|&x| x as f32).collect();
+            max_classes = max_classes.max(go::<f64>(ctx, "f64", &w64));
+            max_classes = max_classes.max(go::<f32>(ctx, "f32", &w32));
+        }
     }
+    ctx.class("alias_rebuild_alignment_classes_seen(max)", max_classes as u64);
 }
 
 /// `verif c14-probe <cell json> <seed> <k>`: the first k samples of a fresh object in a fresh *process* (this call
